@@ -328,7 +328,9 @@ func (p *poller) readWriteLoop() {
 										_ = c.closeWithError(err)
 										break
 									}
-									if n < bufLen {
+									if n < bufLen && c.isStream() {
+										// a short datagram says nothing about
+										// what is queued behind it.
 										break
 									}
 								}
